@@ -19,6 +19,34 @@ var externalRedirect = map[string]string{
 	"crypto/sha1.block":   "blockGeneric",
 }
 
+// modelRedirect maps functions of the environment (operating system, mmap) to their models, ordinary Go functions of
+// package internal/verifrt (harness run-time) that are executed symbolically like any other code. Every redirect is
+// listed as a stub in the evidence.
+var modelRedirect = map[string]string{
+	"github.com/tetratelabs/wazero/internal/platform.mmapCodeSegmentAMD64": "ModelMmapCodeSegment",
+	"github.com/tetratelabs/wazero/internal/platform.munmapCodeSegment": "ModelMunmapCodeSegment",
+	"github.com/tetratelabs/wazero/internal/platform.MprotectRX":      "ModelMprotectRX",
+	"os.CreateTemp":        "ModelCreateTemp",
+	"os.OpenFile":          "ModelOpenFile",
+	"os.Open":              "ModelOpen",
+	"os.Create":            "ModelCreate",
+	"os.WriteFile":         "ModelWriteFile",
+	"os.ReadFile":          "ModelReadFile",
+	"os.Rename":            "ModelRename",
+	"os.Remove":            "ModelRemove",
+	"os.Link":              "ModelLink",
+	"os.MkdirAll":          "ModelMkdirAll",
+	"(*os.File).Write":     "ModelFileWrite",
+	"(*os.File).WriteString": "ModelFileWriteString",
+	"(*os.File).Read":      "ModelFileRead",
+	"(*os.File).Sync":      "ModelFileSync",
+	"(*os.File).Close":     "ModelFileClose",
+	"(*os.File).Name":      "ModelFileName",
+	"(*os.File).ReadFrom":  "ModelFileReadFrom",
+}
+
+const verifrtPkgPath = "github.com/tetratelabs/wazero/internal/verifrt"
+
 type Sched struct{}
 
 func (s *Sched) clone() *Sched { c := *s; return &c }
@@ -635,6 +663,15 @@ func (ex *Exec) call(st *State, fn FuncV, args []Value, retTo ssa.Value, instr s
 		return
 	}
 	name := fn.Fn.String()
+	if alt, ok := modelRedirect[name]; ok {
+		if p := ex.prog.ImportedPackage(verifrtPkgPath); p != nil {
+			if g := p.Func(alt); g != nil && g.Blocks != nil {
+				ex.stubs[name+" -> verifrt."+alt+" (environment model)"] = true
+				ex.call(st, FuncV{Fn: g}, args, retTo, instr)
+				return
+			}
+		}
+	}
 	if h := ex.intrinsic(name, fn.Fn); h != nil {
 		if h(ex, st, f, fn, args, retTo, instr) {
 			return
